@@ -78,6 +78,20 @@ def collect(ctx: Ctx, profile: str, quick: bool):
             o2, _ = vs.out_of(typelib.unmarshal, ann, r1)
             events.append({"ev": "idem", "T": T, "out1": o1, "out2": o2})
             meta.append(("junk", i, repr(junk[i])[:100]))
+    # bytes-like roots behind a wrapper (Optional, NewType), with payloads that are no UTF-8 text: a valid value of a bytes-like
+    # type is not text to be decoded -- through the one-shot entry point and through the routine alike
+    import typing
+    P = lambda n: {"k": "prim", "n": n}                                            # noqa: E731
+    OPT = lambda a: {"k": "union", "sp": "Optional", "xs": [a, P("NoneType")]}    # noqa: E731
+    NTb = typing.NewType("NTb", bytes)
+    for T, ann, mk in ((OPT(P("bytes")), typing.Optional[bytes], bytes), ({"k": "newtype", "a": P("bytes")}, NTb, bytes),
+                       (OPT(P("bytearray")), typing.Optional[bytearray], bytearray)):
+        for j, raw in enumerate((b"\x89PNG\r\n", b"\xff\xfe\x00", b"caf\xe9", b"abc")):
+            for name, fn in (("unmarshal()", lambda x: typelib.unmarshal(ann, x)), ("unmarshaller()", typelib.unmarshaller(ann))):
+                v = mk(raw)
+                out, _ = vs.out_of(fn, v)
+                events.append({"ev": "passthrough", "T": T, "v": project(mk(raw)), "out": out})
+                meta.append(("bytes-like value via " + name, j, repr(v)[:100]))
     return events, meta, model, len(types)
 
 
